@@ -179,6 +179,40 @@ Theorem residue_matches_exact g l mu :
   induced_ok g l mu = true /\ order_ok g mu = true.
 Proof. unfold residue_matches. rewrite isort_by_in, filter_In, assignments_spec, andb_true_iff. tauto. Qed.
 
+(* induced sub-graph AND edge labels: between any two residues of a match the link's residue graph
+   has an edge exactly if the molecule's has, and where it has, the 'linktype' labels coincide --
+   an unlabelled link edge matches only an unlabelled residue edge and a labelled one only its label *)
+Lemma olabel_eqb_eq a b : olabel_eqb a b = true <-> a = b.
+Proof.
+  destruct a as [x|], b as [y|]; cbn [olabel_eqb]; split; try discriminate; try reflexivity.
+  - intros H. apply String.eqb_eq in H. subst. reflexivity.
+  - intros H. injection H as ->. apply String.eqb_refl.
+Qed.
+
+Theorem induced_ok_spec g l mu :
+  induced_ok g l mu = true <->
+  forall o1 n1 o2 n2, In (o1, n1) mu -> In (o2, n2) mu -> order_eqb o1 o2 = false ->
+    has_ledge l o1 o2 = has_medge g n1 n2 /\ (has_ledge l o1 o2 = true -> llabel l o1 o2 = mlabel g n1 n2).
+Proof.
+  unfold induced_ok. rewrite forallb_forall. split.
+  - intros H o1 n1 o2 n2 H1 H2 Hne. specialize (H (o1, n1) H1). rewrite forallb_forall in H. specialize (H (o2, n2) H2).
+    cbn [fst snd] in H. rewrite Hne in H. apply andb_true_iff in H. destruct H as [Ha Hb]. split.
+    + apply eqb_prop. exact Ha.
+    + intros Hl. rewrite Hl in Hb. apply olabel_eqb_eq. exact Hb.
+  - intros H [o1 n1] H1. rewrite forallb_forall. intros [o2 n2] H2. cbn [fst snd].
+    destruct (order_eqb o1 o2) eqn:Hne; [reflexivity|]. destruct (H o1 n1 o2 n2 H1 H2 Hne) as [Ha Hb].
+    apply andb_true_iff. split; [rewrite Ha; apply eqb_reflx|].
+    destruct (has_ledge l o1 o2); [apply olabel_eqb_eq, Hb; reflexivity|reflexivity].
+Qed.
+
+Theorem match_respects_edge_labels g l mu o1 n1 o2 n2 :
+  In mu (residue_matches g l) -> In (o1, n1) mu -> In (o2, n2) mu -> order_eqb o1 o2 = false ->
+  has_ledge l o1 o2 = true -> has_medge g n1 n2 = true /\ mlabel g n1 n2 = llabel l o1 o2.
+Proof.
+  intros Hmu H1 H2 Hne Hl. apply residue_matches_exact in Hmu. destruct Hmu as (_ & Hind & _).
+  destruct (proj1 (induced_ok_spec g l mu) Hind o1 n1 o2 n2 H1 H2 Hne) as [Ha Hb]. split; [congruence|symmetry; apply Hb; exact Hl].
+Qed.
+
 (* every link atom identifies exactly one atom, else the match contributes nothing *)
 Theorem match_atoms_unique g mu las m :
   match_atoms g mu las = Some m ->
@@ -201,11 +235,11 @@ Example ex_links :
   let at1 k := {| ra_key := k; ra_name := "EC"; ra_resname := "PEO" |} in
   let g := {| m_nodes := [{| mn_key := 0; mn_resid := 1; mn_atoms := [at1 0] |}; {| mn_key := 1; mn_resid := 2; mn_atoms := [at1 1] |};
                           {| mn_key := 2; mn_resid := 3; mn_atoms := [at1 2] |}];
-              m_edges := [(0, 1); (1, 2)] |} in
+              m_edges := [(0, 1); (1, 2)]; m_labels := [] |} in
   let la k o := {| la_key := k; la_name := "EC"; la_order := o; la_resnames := ["PEO"]; la_replace := [] |} in
   let l := {| l_atoms := [la "EC" (ONum 0); la "+EC" (ONum 1)];
               l_inters := [{| li_sec := "bonds"; li_atoms := ["EC"; "+EC"]; li_params := ["1"; "0.33"; "7000"]; li_version := 1; li_meta := [] |}];
-              l_edges := [("EC", "+EC")]; l_res_nodes := [ONum 0; ONum 1]; l_res_edges := [(ONum 0, ONum 1)] |} in
+              l_edges := [("EC", "+EC")]; l_res_nodes := [ONum 0; ONum 1]; l_res_edges := [(ONum 0, ONum 1)]; l_res_labels := [] |} in
   map (fun kv => snd (fst (fst kv))) (apply_links g [] [l]) = [[1; 2]; [0; 1]] \/
   map (fun kv => snd (fst (fst kv))) (apply_links g [] [l]) = [[0; 1]; [1; 2]].
 Proof. vm_compute. auto. Qed.
